@@ -47,7 +47,8 @@ def planted_system(rng, info, small=False):
 
 def run_system(task):
     """one planted system through the real discover_network, with the landscape of the target's selection recorded"""
-    info, method, seed, small = task
+    info, method, seed, small = task[:4]
+    stress = len(task) > 4 and task[4]
     warnings.filterwarnings("ignore")
     import causationentropy.core.discovery as disc
     from discover_spy import Spy
@@ -81,14 +82,15 @@ def run_system(task):
                 spy.test_calls[-1]["bwd"] = phase["bwd"]
                 return r
             disc.conditional_mutual_information, disc.shuffle_test = cmi, test
-            G = disc.discover_network(X, method=method, information=info, max_lag=L, n_shuffles=N_SHUFFLES)
+            extra = {"alpha_forward": 0.4, "alpha_backward": 0.01} if stress else {}
+            G = disc.discover_network(X, method=method, information=info, max_lag=L, n_shuffles=N_SHUFFLES, **extra)
     finally:
         sys.stdout = old
         disc.backward = orig_bwd
     names = list(G.nodes())
     edges_v = [(names.index(a), int(d["lag"]), float(d["cmi"])) for a, b, d in G.edges(data=True) if b == names[v]]
     planted = [e for e in edges_v if (e[0], e[1]) == (u, tau)]
-    res = {"info": info, "method": method, "seed": seed, "n": n, "L": L, "T": T, "u": u, "v": v, "tau": tau,
+    res = {"stress": bool(stress), "info": info, "method": method, "seed": seed, "n": n, "L": L, "T": T, "u": u, "v": v, "tau": tau,
            "edges_into_v": edges_v, "recovered": bool(planted),
            "top": bool(planted) and all(planted[0][2] >= e[2] for e in edges_v),
            "wrong_lag_or_direction": [e[:2] for e in edges_v if e[0] == u and e[1] != tau]}
@@ -165,6 +167,13 @@ def run(chk):
             for s in ss.spawn(m):
                 tasks.append((info, method, int(s.generate_state(1)[0]), quick and info in ('poisson', 'kde', 'geometric_knn')))
         ss = np.random.SeedSequence(int(ss.generate_state(1)[0]) + 1)
+    # pruning-stress stream (deterministic consequences only, not part of the measured frequencies): a permissive forward level
+    # and a strict backward level make the forward pass accept spurious predictors that the backward pass then prunes
+    for method in ("standard", "alternative"):
+        for info in ("gaussian", "knn"):
+            for s in ss.spawn(8 if quick else 150):
+                tasks.append((info, method, int(s.generate_state(1)[0]), False, True))
+            ss = np.random.SeedSequence(int(ss.generate_state(1)[0]) + 7)
     tasks.sort(key=lambda t: {"poisson": 0, "geometric_knn": 1, "kde": 2}.get(t[0], 3))     # slow ones first
     with mp.get_context("fork").Pool(14) as pool:
         results = pool.map(run_system, tasks, chunksize=1)
@@ -172,20 +181,25 @@ def run(chk):
     tally = {}
     for r in results:
         key = r["info"]
-        t = tally.setdefault(key, {"m": 0, "rec": 0, "top": 0, "misses": []})
-        t["m"] += 1
-        t["rec"] += r["recovered"]
-        t["top"] += r["top"]
-        if not r["recovered"] and len(t["misses"]) < 5:
-            t["misses"].append({k: r[k] for k in ("method", "seed", "n", "L", "T", "u", "v", "tau", "edges_into_v")})
-        chk.case(key=(r["info"], r["method"], r["seed"]), nontrivial=True,
+        if r["stress"]:
+            chk.count("pruning_stress.systems")
+            chk.count("pruning_stress.pruned_predictors", sum(1 for x in r.get("tB", []) if not x[2]))
+        else:
+            t = tally.setdefault(key, {"m": 0, "rec": 0, "top": 0, "misses": []})
+            t["m"] += 1
+            t["rec"] += r["recovered"]
+            t["top"] += r["top"]
+            if not r["recovered"] and len(t["misses"]) < 5:
+                t["misses"].append({k: r[k] for k in ("method", "seed", "n", "L", "T", "u", "v", "tau", "edges_into_v")})
+        chk.case(key=(r["info"], r["method"], r["seed"], r["stress"]), nontrivial=True,
                  sample={k: r[k] for k in ("info", "method", "n", "L", "T", "u", "v", "tau", "edges_into_v", "recovered")}
                  if len(chk.samples) < 4 else None)
-        chk.count(f"{key}.{r['method']}.systems")
-        chk.count(f"{key}.recovered", int(r["recovered"]))
+        if not r["stress"]:
+            chk.count(f"{key}.{r['method']}.systems")
+            chk.count(f"{key}.recovered", int(r["recovered"]))
         chk.count(f"placement.n{r['n']}.L{r['L']}.tau{r['tau']}")
-        d = {k: r[k] for k in ("info", "method", "seed", "n", "L", "T", "u", "v", "tau", "edges_into_v", "recovered")}
-        d["how"] = "planted_system(np.random.default_rng(seed), info, small) in harness/props/C05.py (small = quick tier and slow estimator), then discover_network(..., n_shuffles=50)"
+        d = {k: r[k] for k in ("info", "method", "seed", "stress", "n", "L", "T", "u", "v", "tau", "edges_into_v", "recovered")}
+        d["how"] = "planted_system(np.random.default_rng(seed), info, small) in harness/props/C05.py (small = quick tier and slow estimator), then discover_network(..., n_shuffles=50; stress: alpha_forward=0.4, alpha_backward=0.01)"
         if r["method"] in ("standard", "alternative"):
             if not r["landscape_ok"]:
                 chk.count(f"landscape_unreadable_or_nan.{r['info']}")
